@@ -115,3 +115,94 @@ theorem dnodup_fromBytes (b : Bytes) : DNoDup (distinfoFromBytes b) := by
   exact this ls {} ⟨List.Pairwise.nil, List.Pairwise.nil⟩
 
 end L
+
+namespace L
+open M
+
+/-! ### `Line::from_bytes` and embedded newlines -/
+
+theorem lineFromBytes_of_skip (b : Bytes) (h : subLine b = none) : lineFromBytes b = .none := by
+  unfold subLine at h
+  unfold lineFromBytes
+  simp only at h ⊢
+  split at h
+  · rename_i hc; simp only [hc, if_true]
+  · cases h
+
+theorem lineFromBytes_eq_subLine (b : Bytes) : lineFromBytes b = (subLine b).getD .none := by
+  cases h : subLine b with
+  | none => simp [lineFromBytes_of_skip b h]
+  | some l =>
+    unfold subLine at h
+    simp only at h
+    split at h
+    · cases h
+    · simp_all
+
+theorem splitNl'_nl (rest : Bytes) : splitNl' (10 :: rest) = [] :: splitNl' rest := by
+  simp [splitNl']
+
+theorem splitNl'_other (c : UInt8) (rest : Bytes) (hc : c ≠ 10) :
+    splitNl' (c :: rest) = match splitNl' rest with
+      | [] => [[c]]
+      | l :: ls => (c :: l) :: ls := by
+  conv => lhs; unfold splitNl'
+  split
+  · rename_i heq; cases heq
+  · rename_i heq; injection heq with e1 e2; exact absurd e1 hc
+  · rename_i heq; injection heq with e1 e2; subst e1 e2; rfl
+
+theorem splitNl'_no_nl (b : Bytes) (h : (10 : UInt8) ∉ b) : splitNl' b = [b] := by
+  induction b with
+  | nil => rfl
+  | cons c rest ih =>
+    simp only [List.mem_cons, not_or] at h
+    have hc : c ≠ 10 := fun e => h.1 e.symm
+    rw [splitNl'_other c rest hc, ih h.2]
+
+/-- on a line without '\n' (what `Distinfo::from_bytes` passes) the loop runs once -/
+theorem lineFromBytesNl_of_no_nl (b : Bytes) (h : (10 : UInt8) ∉ b) : lineFromBytesNl b = lineFromBytes b := by
+  unfold lineFromBytesNl
+  rw [splitNl'_no_nl b h, lineFromBytes_eq_subLine]
+  cases hs : subLine b <;> simp [List.findSome?, hs]
+
+theorem splitNl'_pieces (b : Bytes) : ∀ l ∈ splitNl' b, (10 : UInt8) ∉ l := by
+  induction b with
+  | nil => intro l hl; simp [splitNl'] at hl; subst hl; simp
+  | cons c rest ih =>
+    intro l hl
+    by_cases hc : c = 10
+    · subst hc
+      rw [splitNl'_nl] at hl
+      simp only [List.mem_cons] at hl
+      rcases hl with rfl | hl
+      · simp
+      · exact ih l hl
+    · rw [splitNl'_other c rest hc] at hl
+      split at hl
+      · simp only [List.mem_singleton] at hl; subst hl
+        simp only [List.mem_singleton]; exact fun e => hc e.symm
+      · rename_i l0 ls hs
+        simp only [List.mem_cons] at hl
+        rcases hl with rfl | hl
+        · have := ih l0 (by rw [hs]; simp)
+          simp only [List.mem_cons, not_or]
+          exact ⟨fun e => hc e.symm, this⟩
+        · exact ih l (by rw [hs]; simp [hl])
+
+/-- the document parser as the code writes it (calling the newline-tolerant `Line::from_bytes`
+    on every '\n'-separated piece) is the model's `distinfoFromBytes` -/
+theorem distinfoFromBytes_mirrors (b : Bytes) :
+    (splitNl' b).foldl (fun d line => d.applyLine (lineFromBytesNl line)) {} = distinfoFromBytes b := by
+  unfold distinfoFromBytes
+  have h := splitNl'_pieces b
+  generalize splitNl' b = ls at h
+  generalize ({} : Distinfo) = d0
+  induction ls generalizing d0 with
+  | nil => rfl
+  | cons l ls ih =>
+    simp only [List.foldl_cons]
+    rw [lineFromBytesNl_of_no_nl l (h l (by simp))]
+    exact ih (fun x hx => h x (by simp [hx])) _
+
+end L
